@@ -95,6 +95,11 @@ claimed = {
    text="For every accepted document the check walks operations, variable definitions (with defaults and directives), selections at every depth, fragment definitions, directives in every position and argument values at every depth (list items, input object fields, list-coerced single values and objects, custom-scalar literals) and requires each link the property lists: Field.Definition / ObjectDefinition, FragmentSpread.Definition / ObjectDefinition, InlineFragment.ObjectDefinition, FragmentDefinition.Definition, Directive.Definition / Location, VariableDefinition.Definition, Value.ExpectedType / Definition, Value.VariableDefinition (in fragments: of some operation). One recorded finding (inline fragments carry the enclosing type) is excused only when the link is exactly the enclosing type's definition.",
    note="Trusted: the check's traversal (resolves parent types by name through the schema structure), ref/refvalid for the precondition.",
    ref="DESIGN.md §4 C09"),
+ "C20": dict(
+   technique=T + "a well-formedness monitor attached to every error produced while the entry points run over enumerated inputs: every token sequence ≤3/4 tokens over both alphabets and every byte string ≤3 symbols (named and unnamed source, with and without limits), every kit type system with ≤1/2 menu items from two named sources, every profile document under the default rules from a named source and through LoadQuery, all 240 variable types × values within 1 deviation, and every path of ≤6 elements over 6 element kinds",
+   text="Every error (and every member of every error list) is checked: non-empty message; for validation errors a known rule name and at least one location; positive line and column; extensions.file equal to the name of one of the named sources; JSON encoding is an object with message / locations (positive integers) / path (strings, non-negative integers) / extensions (object) and decodes back to the same message, locations and path; every path of ≤ 6 elements survives a JSON round trip. Distinct (entry point, message template) pairs reached are counted in the evidence.",
+   note="Trusted: encoding/json. Which errors are produced is the other properties' business; here every produced error is inspected.",
+   ref="DESIGN.md §4 C20"),
 }
 checks = []
 for i in ids:
